@@ -27,6 +27,8 @@ fn any_frag<const N: usize>() -> Frag<N> {
     let f = Frag::<N> { base: kani::any(), moof: kani::any(), data_off: kani::any(), tfhd_dur: kani::any(), decode: kani::any(), size: kani::any(), dur: kani::any(), cts: kani::any() };
     // a consistent file: offsets inside the file (far below 2^62), decode times below 2^62
     kani::assume(f.base < (1 << 62) && f.moof < (1 << 62) && f.decode < (1 << 62));
+    // the run's data starts inside the file: base + data_offset is not negative
+    kani::assume(f.base as i128 + f.data_off as i128 >= 0 && f.moof as i128 + f.data_off as i128 >= 0);
     f
 }
 
@@ -171,12 +173,12 @@ macro_rules! frag {
 // one fragment
 frag!(q_h09frag__n2_moofbase_trundur_cts_dataoff, 2, 0, TRUN_DUR | TRUN_CTS | DATA_OFF, 0);
 frag!(q_h09frag__n2_explicitbase_tfhddur, 2, 0, BASE | TFHD_DUR, 0);
-frag!(q_h09frag__n2_moofbase_trexdur, 2, 0, 0, 0);
-frag!(q_h09frag__n1_explicitbase_dataoff, 1, 0, BASE | DATA_OFF, 0);
+frag!(t_h09frag__n2_moofbase_trexdur, 2, 0, 0, 0);
+frag!(t_h09frag__n1_explicitbase_dataoff, 1, 0, BASE | DATA_OFF, 0);
 // two fragments
 frag!(q_h09frag__n2n2_trundur_both, 2, 2, TRUN_DUR | DATA_OFF, TRUN_DUR | DATA_OFF | TRUN_CTS);
 frag!(q_h09frag__n1n2_tfhddur_then_trexdur, 1, 2, TFHD_DUR, DATA_OFF);
-frag!(q_h09frag__n2n1_explicitbase_then_moofbase, 2, 1, BASE | TRUN_DUR, TRUN_DUR);
+frag!(t_h09frag__n2n1_explicitbase_then_moofbase, 2, 1, BASE | TRUN_DUR, TRUN_DUR);
 frag!(t_h09frag__n2n2_trexdur_both, 2, 2, DATA_OFF, DATA_OFF);
 frag!(t_h09frag__n2n2_tfhddur_both_cts, 2, 2, TFHD_DUR | TRUN_CTS, TFHD_DUR | TRUN_CTS | BASE);
 frag!(t_h09frag__n1n1_all, 1, 1, BASE | TFHD_DUR | TRUN_DUR | TRUN_CTS | DATA_OFF, BASE | TFHD_DUR | TRUN_DUR | TRUN_CTS | DATA_OFF);
